@@ -3,7 +3,9 @@
 Decided: PURE (write-effect analysis of the to_ical cone), HASHSEED (no set
 iteration order flows into ordered structures or output), SORT-FLAG (the
 sorted flag selects sorted vs insertion order and reaches every nested
-sorter), BALANCED (BEGIN/END around properties and recursive subcomponents).
+sorter), TREE-EMIT (E7: property_items / content_lines / to_ical interpreted
+on abstract trees: BEGIN/END balance, canonical vs insertion order, every
+value once, parameters and the sorted flag passed to the line builder).
 Not decided: byte identity of two runs as such (floats/locale not examined).
 """
 import ast
@@ -295,92 +297,6 @@ def root_of(w):
 
 
 # ---------------------------------------------------------------------------
-def balanced_rule(ctx, rule):
-    """Shape of Component.property_items (shared with C18/COVER)."""
-    m = ctx.model
-    pi = m.cls("cal.Component").methods.get("property_items")
-    if pi is None:
-        raise AnalysisError("anchor vanished: Component.property_items")
-    body = body_without_docstring(pi.node)
-    acc = None
-    first = None
-    for st in body:
-        if isinstance(st, ast.Assign) and isinstance(st.value, ast.List) and len(st.value.elts) == 1 \
-                and isinstance(st.value.elts[0], ast.Tuple) \
-                and isinstance(st.value.elts[0].elts[0], ast.Constant) \
-                and st.value.elts[0].elts[0].value == "BEGIN":
-            acc = st.targets[0].id
-            first = st
-    if acc is None:
-        raise AnalysisError("property_items: result list starting with ('BEGIN', …) not found")
-    last_append = None
-    for st in body:
-        if isinstance(st, ast.Expr) and isinstance(st.value, ast.Call) \
-                and isinstance(st.value.func, ast.Attribute) and st.value.func.attr == "append" \
-                and isinstance(st.value.func.value, ast.Name) and st.value.func.value.id == acc \
-                and isinstance(st.value.args[0], ast.Tuple) \
-                and isinstance(st.value.args[0].elts[0], ast.Constant) \
-                and st.value.args[0].elts[0].value == "END":
-            last_append = st
-    rets = [r for r in walk_no_nested(pi.node) if isinstance(r, ast.Return)]
-    ok_end = (last_append is not None and len(rets) == 1 and rets[0] is body[-1]
-              and isinstance(rets[0].value, ast.Name) and rets[0].value.id == acc
-              and body.index(last_append) == len(body) - 2)
-    same_name = ok_end and dump(first.value.elts[0].elts[1]) == dump(last_append.value.args[0].elts[1])
-    ctx.check(ok_end and same_name, rule, "BEGIN first, END last, same name",
-              "property_items must start with ('BEGIN', name), end with ('END', the same "
-              "expression) and have a single exit", pi.loc(),
-              detail="[('BEGIN', n)] … append(('END', n)); return")
-    # every property: every element of a list value, else the value itself
-    loops = [st for st in body if isinstance(st, ast.For)]
-    prop_loop = next((lp for lp in loops if any(isinstance(x, ast.Subscript) for x in ast.walk(lp))), None)
-    okp = False
-    if prop_loop is not None and isinstance(prop_loop.target, ast.Name):
-        nm = prop_loop.target.id
-        ifs = [s for s in prop_loop.body if isinstance(s, ast.If)]
-        if len(ifs) == 1 and "isinstance" in dump(ifs[0].test) and "list" in dump(ifs[0].test):
-            inner = [s for s in ifs[0].body if isinstance(s, ast.For)]
-            whole = False
-            if len(inner) == 1 and isinstance(inner[0].iter, ast.Name):
-                # the iterated name is the stored value self[name], unsliced
-                src = [a for a in ast.walk(prop_loop) if isinstance(a, ast.Assign)
-                       and isinstance(a.targets[0], ast.Name) and a.targets[0].id == inner[0].iter.id]
-                whole = len(src) == 1 and isinstance(src[0].value, ast.Subscript) \
-                    and not isinstance(src[0].value.slice, ast.Slice)
-            okp = (len(inner) == 1 and whole
-                   and not any(isinstance(x, (ast.If, ast.Break, ast.Continue))
-                               for x in ast.walk(inner[0]) if x is not inner[0])
-                   and any("append" in dump(s) for s in inner[0].body)
-                   and any("append" in dump(s) for s in ifs[0].orelse))
-        skips = [x for x in ast.walk(prop_loop) if isinstance(x, (ast.Break, ast.Continue))]
-        okp = okp and not skips
-    ctx.check(okp, rule, "every value of every property is emitted",
-              "property_items must emit each element of a list-valued property and every "
-              "single value, in stored order, without filtering", pi.loc(prop_loop) if prop_loop else pi.loc(),
-              detail="for name in names: list -> each element, else the value")
-    # subcomponents: recursion over the whole list, between properties and END
-    sub_loop = next((lp for lp in ast.walk(pi.node) if isinstance(lp, ast.For)
-                     and isinstance(lp.iter, ast.Attribute) and lp.iter.attr == "subcomponents"), None)
-    oks = False
-    if sub_loop is not None:
-        rec = [c for c in ast.walk(sub_loop) if isinstance(c, ast.Call)
-               and isinstance(c.func, ast.Attribute) and c.func.attr == "property_items"
-               and isinstance(c.func.value, ast.Name) and isinstance(sub_loop.target, ast.Name)
-               and c.func.value.id == sub_loop.target.id]
-        acc_ok = any(isinstance(s, ast.AugAssign) and isinstance(s.target, ast.Name) and s.target.id == acc
-                     for s in sub_loop.body) or any(".extend(" in dump(s) for s in sub_loop.body)
-        oks = (len(rec) == 1 and acc_ok and is_param_like(sub_loop.iter.value, pi.params[0])
-               and not any(isinstance(x, (ast.If, ast.Break, ast.Continue)) for x in ast.walk(sub_loop)
-                           if x is not sub_loop)
-               and sub_loop.lineno > (prop_loop.lineno if prop_loop else 0)
-               and sub_loop.lineno < last_append.lineno)
-    ctx.check(oks, rule, "all subcomponents emitted between properties and END",
-              "every subcomponent's items must be added (recursion over self.subcomponents, "
-              "unfiltered) after the properties and before END", pi.loc(sub_loop) if sub_loop else pi.loc(),
-              detail="for sub in self.subcomponents: properties += sub.property_items(…)")
-    return pi, acc
-
-
 def is_param_like(e, name):
     return isinstance(e, ast.Name) and e.id == name
 
@@ -393,7 +309,8 @@ def run(ctx):
         "propagated over the call graph with actual/formal binding) of the "
         "Component.to_ical cone; set-typed values flowing into iteration, "
         "ordered containers or calls; binding of the `sorted` flag on every "
-        "call edge between functions that take it; shape of property_items.")
+        "call edge between functions that take it; abstract interpretation (E7) of "
+        "property_items/content_lines/to_ical on abstract component trees.")
     comp = m.cls("cal.Component")
     # ---- PURE --------------------------------------------------------------
     W = Writes(m)
@@ -432,8 +349,11 @@ def run(ctx):
     _sort_flag(ctx)
     common.check_canonsort(ctx, "C10/SORT-FLAG")
     common.check_canonical_orders(ctx, "C10/SORT-FLAG")
-    # ---- BALANCED ----------------------------------------------------------
-    balanced_rule(ctx, "C10/BALANCED")
+    # ---- BALANCED / order: property_items, content_lines, to_ical on abstract trees
+    from .. import treemodel
+    treemodel.report(ctx, "C10/TREE-EMIT", treemodel.explore_emit,
+                     "property_items / to_ical emission order and balance",
+                     m.func("cal.Component.property_items").loc(), 200)
 
 
 # ---------------------------------------------------------------------------
@@ -659,17 +579,7 @@ def _sort_flag(ctx):
                           detail="sorted=sorted")
     if n_edges < 6:
         raise AnalysisError(f"only {n_edges} sorted-flag call edges found, 6 confirmed by hand")
-    # each taker: true branch sorted, false branch insertion order
-    pi = m.cls("cal.Component").methods["property_items"]
-    okb = False
-    for n in ast.walk(pi.node):
-        if isinstance(n, ast.If) and isinstance(n.test, ast.Name) and n.test.id == "sorted":
-            t = dump(n.body[0]) if n.body else ""
-            e = dump(n.orelse[0]) if n.orelse else ""
-            okb = "sorted_keys()" in t and ".keys()" in e
-    ctx.check(okb, "C10/SORT-FLAG", "property_items: sorted -> sorted_keys, else keys",
-              "with the flag on, property names come from self.sorted_keys(); with it off from "
-              "self.keys() (insertion order)", pi.loc(), detail="if sorted: sorted_keys() else keys()")
+    # (property_items itself: decided by C10/TREE-EMIT on abstract trees)
     pt = m.own_method("parser.Parameters.to_ical")
     okp = False
     for n in ast.walk(pt.node):
